@@ -27,14 +27,19 @@ ASSUMPTIONS = [
 SCALE = 100.0
 A5 = (-2, -1, 0, 1, 2)
 A7 = (-3, -2, -1, 0, 1, 2, 3)
+# near ties: distinct loads closer than any plausible relative tolerance but far above the detector's absolute 1e-12
+# (units of SCALE: 1000, 1000.0005, 1000.001 and their negatives, +-500)
+NT = (-10.00001, -10.000005, -10, -5, 5, 10, 10.000005, 10.00001)
 
 
 def bounds(tier):
     if tier == "quick":
         return [{"alphabet": [SCALE * a for a in A5], "n": [2, 5], "passes": "first + 3x second", "refinement_base_n_max": 4, "stub_law_n_max": 4},
-                {"alphabet": [SCALE * a for a in A7], "n": [2, 4], "only": "sequences containing +-300", "passes": "first + 3x second"}]
+                {"alphabet": [SCALE * a for a in A7], "n": [2, 4], "only": "sequences containing +-300", "passes": "first + 3x second"},
+                {"alphabet": [SCALE * a for a in NT], "n": [2, 4], "what": "near ties (5e-7 relative apart)", "passes": "first + 3x second"}]
     return [{"alphabet": [SCALE * a for a in A5], "n": [2, 7], "passes": "first + 3x second", "refinement_base_n_max": 5, "stub_law_n_max": 5},
-            {"alphabet": [SCALE * a for a in A7], "n": [2, 5], "passes": "first + 3x second"}]
+            {"alphabet": [SCALE * a for a in A7], "n": [2, 5], "passes": "first + 3x second"},
+            {"alphabet": [SCALE * a for a in NT], "n": [2, 5], "what": "near ties (5e-7 relative apart)", "passes": "first + 3x second"}]
 
 
 def prepare(tier):
@@ -50,9 +55,9 @@ def _seqs(alpha, n):
 def shards(tier):
     out = []
     if tier == "quick":
-        plan = [(A5, 2, 5, 4, 4), (A7, 2, 4, 0, 0)]
+        plan = [(A5, 2, 5, 4, 4), (A7, 2, 4, 0, 0), (NT, 2, 4, 0, 0)]
     else:
-        plan = [(A5, 2, 7, 5, 5), (A7, 2, 5, 0, 0)]
+        plan = [(A5, 2, 7, 5, 5), (A7, 2, 5, 0, 0), (NT, 2, 5, 0, 0)]
     for alpha, nmin, nmax, nref, nstub in plan:
         for n in range(nmin, nmax + 1):
             seqs = list(_seqs(alpha, n))
